@@ -25,7 +25,14 @@ SNIPPETS = [
                                                              '{ $n ->\n    }', '{ $n -> *[other] y }']),
     ('{ msg }', ['{ msg ->\n       *[a] b\n    }', '{ msg.attr ->\n       *[a] b\n    }']),
     ('{ -term }', ['{ -term ->\n       *[a] b\n    }', '{ -term.attr }']),
-    ('{ F(1, a: 1) }', ['{ F(a: 1, 2) }', '{ F(a: 1, a: 2) }', '{ f(1) }', '{ Fun(1) }', '{ F(a: b) }', '{ F(1 }', '{ F(']),
+    ('{ F(1, a: 1) }', ['{ F(a: 1, 2) }', '{ F(a: 1, a: 2) }', '{ f(1) }', '{ Fun(1) }', '{ F(a: b) }', '{ F(1 }', '{ F(',
+                        # positional after named, for every kind of positional expression
+                        '{ F(a: 1, msg) }', '{ F(a: 1, msg.attr) }', '{ F(a: 1, -t) }', '{ F(a: 1, $v) }', '{ F(a: 1, G()) }',
+                        '{ F(a: 1, { 1 }) }', '{ F(a: 1, "s") }', '{ -t(a: 1, b) }', '{ F(x, a: 1, b: 2, y) }', '{ F(a: 1, a: 1) }',
+                        '{ F(a: $v) }', '{ F(a: msg) }', '{ F(a: -t) }', '{ F(a: { 1 }) }', '{ F(: 1) }', '{ F(a 1) }', '{ F(1 2) }']),
+    ('{ $n ->\n        [one] x\n       *[other] y\n    }', ['{ $n ->\n        [one] x\n       *other] y\n    }', '{ $n ->\n        [one] x\n       *\n    }',
+                                                             '{ $n ->\n       *[one x\n    }', '{ $n ->\n       *[] x\n    }', '{ $n ->\n       *[one two] x\n    }',
+                                                             '{ $n -> \n       *[-] x\n    }', '{ $n - >\n       *[a] x\n    }', '{ $n ->  *[a] x\n    }']),
     ('{ "ok" }', ['{ "\\x" }', '{ "\\u00" }', '{ "\\U0000" }', '{ "abc\n    }', '{ "abc', '{ "\\u00\xe9" }']),
     ('{ $x }', ['{ $x', '{ $ }', '}', '{ }', '{ $x }}', '{', '{ $x ->', '{ 1 2 }', '{ -', '{ $x.y }']),
 ]
